@@ -28,7 +28,7 @@ Cells == {"parser", "cookies", "path", "msgs", "strip", "luastk", "lglobal", "ll
           "lstring", "lsmeta", "lretain", "memo", "tags"}
 
 \* page kinds (the harness has one concrete page per kind)
-Kinds == {"unclosedMarkup", "unclosedTable", "preTag", "manyCalls", "templateLoop", "sectionError",
+Kinds == {"unclosedMarkup", "unclosedTable", "preTag", "manyCalls", "templateLoop", "sectionError", "templateNowiki",
           "luaGlobal", "luaString", "luaStringMeta", "luaRequired", "luaRetained", "luaLoadData", "luaLoadJson",
           "luaStripMarker", "luaError", "luaTimeout", "parseExpandAll", "otherContextWithExtTags", "extTagPage"}
 
@@ -41,7 +41,8 @@ Reads(k) ==
   CASE k \in {"unclosedMarkup", "unclosedTable", "preTag"} -> {"parser", "cookies", "tags", "msgs"}
     [] k = "extTagPage" -> {"parser", "cookies", "tags", "msgs"}
     [] k = "parseExpandAll" -> {"parser", "cookies", "path", "msgs", "memo", "tags"}
-    [] k \in {"manyCalls", "templateLoop", "sectionError"} -> {"cookies", "path", "msgs", "memo"}
+    \* templateNowiki: a template whose body holds <nowiki>..</nowiki> (its cookie lives in the per-page table)
+    [] k \in {"manyCalls", "templateLoop", "sectionError", "templateNowiki"} -> {"cookies", "path", "msgs", "memo"}
     [] k = "luaGlobal" -> {"cookies", "path", "msgs", "luastk", "lglobal"}
     \* the per-invocation `string` table is cloned from the table the string metatable indexes
     [] k = "luaString" -> {"cookies", "path", "msgs", "luastk", "lstring", "lsmeta"}
@@ -56,7 +57,7 @@ Reads(k) ==
 \* cells a page of this kind leaves changed when it returns (after the code's own clean-up)
 Writes(k) ==
   (IF IsParse(k) THEN {"cookies", "msgs"} ELSE {})
-  \cup (IF k \in {"manyCalls", "templateLoop", "sectionError", "parseExpandAll"} THEN {"cookies", "msgs", "memo"} ELSE {})
+  \cup (IF k \in {"manyCalls", "templateLoop", "sectionError", "templateNowiki", "parseExpandAll"} THEN {"cookies", "msgs", "memo"} ELSE {})
   \cup (IF IsLua(k) THEN {"cookies", "msgs", "memo"} ELSE {})
   \cup (CASE k = "luaGlobal" -> {"lglobal"}
           [] k = "luaString" -> {"lstring"}
